@@ -228,3 +228,117 @@ Section SkipNet.
     - apply length_outL.
   Qed.
 End SkipNet.
+
+(* ================= the backward pass ================= *)
+Definition bstate : Type :=
+  (list (tensor NR) * list (grad NR) * list (option (bgrad NR))
+   * list (list (tensor NR) * list (tensor NR) * list (option maxidx)) * list (tensor NR))%type.
+
+Definition bstep (n : network NR) (f : fwd NR) (st : bstate) (il : nat * layer NR) : res bstate :=
+  let len := length (n_layers n) in
+  let inv := invert_net_connect (n_connect n) in
+  let '(gs, wgs, bgs, fbs, ps) := st in
+  let '(i, lyr) := il in
+  let idx := (len - i - 1)%nat in
+  do input0 <- nth_res (fw_post f) idx;
+  do input <- (match alist_get (n_connect n) idx with
+               | Some src =>
+                   do s0 <- nth_res (fw_post f) src;
+                   do s <- (if shape_eqb (tshape s0) (tshape input0) then Ok s0
+                            else reshape s0 (tshape input0));
+                   match n_skipacc n with
+                   | AccAdd => add_inplace input0 s
+                   | AccSub => sub_inplace input0 s
+                   | AccMul => mul_inplace input0 s
+                   | AccOverwrite => Ok s
+                   | AccMean => mean_inplace input0 (s :: nil)
+                   end
+               | None => Ok input0
+               end);
+  do output <- nth_res (fw_pre f) idx;
+  do lastg <- (match last_opt gs with Some t => Ok t | None => Panic P_unwrap end);
+  do mx <- nth_res (fw_max f) idx;
+  let fb := match lyr with LFeedback _ => last_opt fbs | _ => None end in
+  let fbs' := match lyr with LFeedback _ => removelast fbs | _ => fbs end in
+  do r <- layer_backward lyr lastg input output mx fb;
+  let '(g, wg, bg) := r in
+  let ps' := ps ++ g :: nil in
+  do g' <- (match alist_get inv idx with
+            | Some tos =>
+                foldM (fun gacc to =>
+                         do k <- csub len to;
+                         do g2 <- nth_res ps' k;
+                         do g2' <- reshape g2 (tshape gacc);
+                         add_inplace gacc g2') tos g
+            | None => Ok g
+            end);
+  Ok (gs ++ g' :: nil, wgs ++ wg :: nil, bgs ++ bg :: nil, fbs', ps').
+
+Lemma backward_is_fold (n : network NR) (g : tensor NR) (f : fwd NR) :
+  backward n g f =
+  (do st <- foldM (bstep n f) (combine (seq 0 (length (n_layers n))) (rev (n_layers n)))
+                  (g :: nil, [], [], fw_fb f, g :: nil);
+   let '(gs, wgs, bgs, _, _) := st in Ok (wgs, bgs, gs)).
+Proof. reflexivity. Qed.
+
+Lemma last_gs_of (gs0 : list (tensor NR)) (seg : list (lspec * vec)) (xl gfin : list R) :
+  last_opt gs0 = Some (t_single NR gfin) ->
+  let '(gin, _, gins) := gradsL seg xl gfin in
+  last_opt (gs0 ++ gs_of gins) = Some (t_single NR gin).
+Proof.
+  intros Hlast. destruct seg as [|[s th] rest].
+  - cbn [gradsL gs_of map rev]. rewrite app_nil_r. exact Hlast.
+  - cbn [gradsL]. destruct (gradsL rest _ gfin) as [[gm gp] gi]. unfold gs_of. cbn [map rev].
+    rewrite app_assoc. apply last_opt_app.
+Qed.
+
+(* a run of layers that are neither source nor target of a connection *)
+Lemma bwd_plain_segment (n : network NR) (f : fwd NR) : forall (seg : list (lspec * vec)) (k0 : nat) (xl gfin : list R) d
+    (gs0 : list (tensor NR)) ws0 bs0 fbs0 (ps0 : list (tensor NR)),
+  let len := length (n_layers n) in
+  (k0 + length seg <= len)%nat ->
+  (forall idx, (k0 <= idx < k0 + length seg)%nat ->
+     alist_get (n_connect n) idx = None /\ alist_get (invert_net_connect (n_connect n)) idx = None) ->
+  chainedS seg d -> length xl = d -> length gfin = lastD seg d ->
+  (forall t, (t < length seg)%nat -> nth_error (fw_post f) (k0 + t) = Some (t_single NR (nth t (insL seg xl) []))) ->
+  (forall t, (t < length seg)%nat -> nth_error (fw_pre f) (k0 + t) = Some (t_single NR (nth t (presL seg xl) []))) ->
+  (forall t, (t < length seg)%nat -> nth_error (fw_max f) (k0 + t) = Some None) ->
+  last_opt gs0 = Some (t_single NR gfin) ->
+  let '(gin, gps, gins) := gradsL seg xl gfin in
+  foldM (bstep n f) (combine (seq (len - k0 - length seg) (length seg)) (rev (map mkL seg))) (gs0, ws0, bs0, fbs0, ps0)
+  = Ok (gs0 ++ gs_of gins, ws0 ++ ws_of seg gps, bs0 ++ bs_of seg gps, fbs0, ps0 ++ gs_of gins).
+Proof.
+  induction seg as [|[s th] seg IH]; intros k0 xl0 gfin d0 gs0 ws0 bs0 fbs0 ps0 len Hle Hno Hch0 Hxl0 Hg0 Hpo Hpr Hmx Hlast.
+  - cbn [gradsL length seq map rev combine foldM gs_of ws_of bs_of]. rewrite !app_nil_r. reflexivity.
+  - cbn [gradsL]. cbn [chainedS lastD] in Hch0, Hg0. destruct Hch0 as (Hn & Ho & Hn0 & Ha & Hch0).
+    cbn [length] in Hle.
+    specialize (IH (S k0) (outL (s, th) xl0) gfin (ls_o s) gs0 ws0 bs0 fbs0 ps0 ltac:(lia)).
+    pose proof (@gradsL_gin_length seg (ls_o s) (outL (s, th) xl0) gfin Hch0 Hg0) as Hglen.
+    pose proof (@last_gs_of gs0 seg (outL (s, th) xl0) gfin Hlast) as Elast.
+    destruct (gradsL seg (outL (s, th) xl0) gfin) as [[gmid gps] gins] eqn:Eg. cbn [fst] in Hglen.
+    cbn [length map rev]. rewrite seq_S.
+    rewrite combine_snoc by (rewrite seq_length, rev_length, map_length; reflexivity).
+    rewrite foldM_app.
+    replace (len - k0 - S (length seg))%nat with (len - S k0 - length seg)%nat by lia.
+    fold len in IH. rewrite IH.
+    + cbn [bind foldM]. unfold bstep at 1. fold len.
+      replace (len - (len - S k0 - length seg + length seg) - 1)%nat with k0 by lia.
+      destruct (Hno k0 ltac:(cbn [length]; lia)) as [Hc1 Hc2]. rewrite Hc1, Hc2.
+      pose proof (Hpo 0%nat ltac:(cbn [length]; lia)) as Hp0. rewrite Nat.add_0_r in Hp0. cbn [insL nth] in Hp0.
+      pose proof (Hpr 0%nat ltac:(cbn [length]; lia)) as Hr0. rewrite Nat.add_0_r in Hr0. cbn [presL nth] in Hr0.
+      pose proof (Hmx 0%nat ltac:(cbn [length]; lia)) as Hm0. rewrite Nat.add_0_r in Hm0.
+      unfold nth_res. rewrite Hp0, Hr0, Hm0. cbn [bind]. rewrite Elast. cbn [bind mkL fst snd layer_backward].
+      pose proof (@mk_dense_backward s th xl0 gmid Ho Hn0 ltac:(congruence) Hglen Ha) as Hb. cbv zeta in Hb.
+      unfold preL. cbn [fst snd].
+      rewrite Hb. cbn [bind fst snd]. unfold gs_of, ws_of, bs_of. cbn [combine map rev]. rewrite !app_assoc. reflexivity.
+    + intros idx Hi. apply Hno. cbn [length]. lia.
+    + exact Hch0.
+    + apply length_outL.
+    + exact Hg0.
+    + intros t Ht. specialize (Hpo (S t) ltac:(cbn [length]; lia)). cbn [insL nth] in Hpo.
+      rewrite <- Hpo. f_equal. lia.
+    + intros t Ht. specialize (Hpr (S t) ltac:(cbn [length]; lia)). cbn [presL nth] in Hpr.
+      rewrite <- Hpr. f_equal. lia.
+    + intros t Ht. specialize (Hmx (S t) ltac:(cbn [length]; lia)). rewrite <- Hmx. f_equal. lia.
+    + exact Hlast.
+Qed.
